@@ -314,6 +314,72 @@ fn cli_case(cli: &str, dir: &str, idx: u64, text: &str, tts: &[TT]) -> Vec<(Stri
     out
 }
 
+/// export / import through the CLI with labels that the two sortings reorder or that carry blanks at their ends, every
+/// pair of sorting flags at export and at import time: the imported object answers by the SAME labels as the definition
+/// (a sorting flag given to an import run must not move labels to other statements; labels survive the file verbatim)
+fn cli_labels_case(cli: &str, dir: &str, idx: u64, tts: &[TT], labels: &[&str]) -> Vec<(String, String)> {
+    let n = tts.len();
+    let nm: Vec<String> = labels.iter().take(n).map(|s| s.to_string()).collect();
+    let written: Vec<String> = nm.iter().map(|l| if l.chars().all(|c| c.is_ascii_alphanumeric()) { l.clone() } else { format!("\"{}\"", l) }).collect();
+    let text = crate::fam::adf_text_fm(&crate::fam::adf_fms(tts, idx), &written);
+    let mut out = vec![];
+    let input = format!("{}/lin_{}_{}.adf", dir, idx, labels[0].len() * 7 + labels[1].len());
+    std::fs::write(&input, &text).unwrap_or_else(|_| machinery_error("cannot write input file"));
+    let wants: Vec<(&str, Vec<Interp>)> = vec![("--grd", vec![grounded(tts)]), ("--com", complete(tts).into_iter().collect()), ("--stm", stable(tts).into_iter().collect())];
+    let sorts = ["", "--lx", "--an"];
+    for (ei, es) in sorts.iter().enumerate() {
+        let exp = format!("{}.exp{}.json", input, ei);
+        let _ = std::fs::remove_file(&exp);
+        let mut args: Vec<String> = vec!["--lib".into(), "naive".into(), "--export".into(), exp.clone(), "-q".into()];
+        if !es.is_empty() {
+            args.push(es.to_string());
+        }
+        args.push(input.clone());
+        let o = run_cli(cli, &args);
+        if o.code != Some(0) || !std::path::Path::new(&exp).exists() {
+            out.push(("cli:export-exit".into(), format!("export run ({}) exits with {:?}: {}", es, o.code, o.stderr.chars().take(200).collect::<String>())));
+            continue;
+        }
+        for is in sorts.iter() {
+            for (flag, want) in &wants {
+                let mut args: Vec<String> = vec!["--lib".into(), "naive".into(), "--import".into(), flag.to_string(), "-q".into()];
+                if !is.is_empty() {
+                    args.push(is.to_string());
+                }
+                args.push(exp.clone());
+                let o = run_cli(cli, &args);
+                let what = format!("exported with [{}], imported with [{}] {}", es, is, flag);
+                if o.code != Some(0) {
+                    out.push((format!("cli:import{}:exit", flag), format!("{}: exit {:?}: {}", what, o.code, o.stderr.chars().take(200).collect::<String>())));
+                    continue;
+                }
+                match parse_stdout(&o.stdout) {
+                    Err(l) => out.push((format!("cli:import{}:format", flag), format!("{}: unreadable line {:?}", what, l))),
+                    Ok(lines) => {
+                        let mut got: Vec<Interp> = vec![];
+                        for l in &lines {
+                            match to_interp(l, &nm) {
+                                Some(v) => got.push(v),
+                                None => out.push((format!("cli:import{}:labels", flag), format!("{}: the line does not label exactly the declared statements {:?}: {:?}", what, nm, l))),
+                            }
+                        }
+                        got.sort();
+                        let mut w = want.clone();
+                        w.sort();
+                        if got != w {
+                            out.push((format!("cli:import{}:answer", flag), format!("{}: the imported ADF answers {:?} (by label), the definition gives {:?}", what, got.iter().map(|x| interp_str(x)).collect::<Vec<_>>(), w.iter().map(|x| interp_str(x)).collect::<Vec<_>>())));
+                        }
+                    }
+                }
+            }
+        }
+        let _ = std::fs::remove_file(&exp);
+    }
+    out
+}
+
+pub const LABEL_SETS: [[&str; 2]; 4] = [["b", "a"], ["b10", "b9"], [" a", "b "], ["x\t", "  y"]];
+
 fn late_target_schedule(cli: &str, dir: &str, idx: u64, text: &str, marker: &[u8]) -> Vec<(String, String)> {
     use std::io::Write;
     use std::os::unix::fs::OpenOptionsExt;
@@ -560,6 +626,31 @@ pub fn run_c14(run: &Run) {
     for st in res {
         run.add_counts(0, st, st, 0);
     }
+    // labels that the sortings reorder / that carry blanks, every pair of sorting flags at export and import time
+    {
+        let src = Source::FamCompact(fam_a(2));
+        let res = run.par_family(
+            &format!("CLI export / import of A(2) under {} label sets x 3 sortings at export x 3 sortings at import x grd / com / stm", LABEL_SETS.len()),
+            src.size() * LABEL_SETS.len() as u64,
+            || 0u64,
+            |st, k| {
+                // quick: one residue class modulo 4 of A(2) (selected by the seed) under every label set
+                if quick && (k / LABEL_SETS.len() as u64) % 4 != run.seed % 4 {
+                    return;
+                }
+                let c = src.get(k / LABEL_SETS.len() as u64);
+                let ls = &LABEL_SETS[(k % LABEL_SETS.len() as u64) as usize];
+                *st += 30;
+                for (kind, msg) in cli_labels_case(&cli, &tmp.0, k, &c.tts, ls) {
+                    run.violation(&kind, format!("{} on A(2) member {:?} with labels {:?}", msg, c.tts, ls), json!({"type": "persist-cli-labels", "tts": c.tts, "labels": ls, "k": k}));
+                }
+            },
+            &|k| json!({"type": "persist-cli-labels", "tts": src.get(k / LABEL_SETS.len() as u64).tts, "labels": LABEL_SETS[(k % LABEL_SETS.len() as u64) as usize], "k": k}),
+        );
+        for st in res {
+            run.add_counts(0, st, st, st);
+        }
+    }
     drop(tmp);
     // once more with a logger that accepts TRACE records: A(2), native and bridged, exported fresh and after one call
     {
@@ -594,6 +685,13 @@ pub fn run_c14(run: &Run) {
 }
 
 pub fn replay(c: &Value) -> Vec<(String, String)> {
+    if c["type"] == "persist-cli-labels" {
+        let tts: Vec<TT> = c["tts"].as_array().map(|a| a.iter().map(|x| x.as_u64().unwrap_or(0) as TT).collect()).unwrap_or_default();
+        let labels: Vec<String> = c["labels"].as_array().map(|a| a.iter().map(|x| x.as_str().unwrap_or("").to_string()).collect()).unwrap_or_default();
+        let ls: Vec<&str> = labels.iter().map(|s| s.as_str()).collect();
+        let tmp = TmpDir::new("c14-replay");
+        return cli_labels_case(&cli_path(), &tmp.0, c["k"].as_u64().unwrap_or(0), &tts, &ls);
+    }
     let tts: Vec<TT> = c["tts"].as_array().map(|a| a.iter().map(|x| x.as_u64().unwrap_or(0) as TT).collect()).unwrap_or_default();
     let text = c["text"].as_str().unwrap_or("");
     if c["type"] == "persist-scale" {
